@@ -316,11 +316,104 @@ theorem norm_createEdgeWithId (s : Store) (id a b t : Nat) :
     Option.map_none]
   rfl
 
-theorem norm_setNodeProp (s : Store) (id k : Nat) (v : String) :
-    (s.setNodeProp id k v).norm = s.norm.setNodeProp id k v := rfl
+/-! #### `set_node_property` / `set_edge_property` write only to an entity that is alive -/
 
-theorem norm_setEdgeProp (s : Store) (id k : Nat) (v : String) :
-    (s.setEdgeProp id k v).norm = s.norm.setEdgeProp id k v := rfl
+theorem visibleAt_normVer' (v : Ver) (e : Nat) : (normVer v).visibleAt e = v.deleted.isNone := by
+  unfold Ver.visibleAt normVer
+  cases v.deleted <;> simp
+
+theorem chainVisibleAt_norm' (c : List Ver) (e : Nat) :
+    chainVisibleAt (normChain c) e = c.any (·.deleted.isNone) := by
+  unfold chainVisibleAt normChain
+  induction c with
+  | nil => rfl
+  | cons v vs ih => simp only [List.map_cons, List.any_cons, visibleAt_normVer', ih]
+
+/-- aliveness (visible at `PENDING`) does not depend on the stamps of a settled chain, as long
+as the store's epoch has not passed `PENDING` itself (a 64-bit counter cannot) -/
+theorem chainAlive_norm {e : Nat} {c : List Ver} (h : ChainSettled e c) (he : e ≤ pendingEpoch) :
+    chainAlive (normChain c) = chainAlive c := by
+  unfold chainAlive
+  rw [chainVisibleAt_norm', chainVisibleAt_of_settled h he]
+
+def nodeAlive (s : Store) (id : Nat) : Bool := ((aget s.nodes id).map chainAlive).getD false
+def edgeAlive (s : Store) (id : Nat) : Bool := ((aget s.edges id).map (fun e => chainAlive e.1)).getD false
+
+theorem nodeAlive_norm {s : Store} (hs : Settled s) (he : s.epoch ≤ pendingEpoch) (id : Nat) :
+    nodeAlive s.norm id = nodeAlive s id := by
+  unfold nodeAlive
+  have hg : aget s.norm.nodes id = (aget s.nodes id).map normChain := aget_amap _ _ _
+  rw [hg]
+  cases h : aget s.nodes id with
+  | none => rfl
+  | some c => simp only [Option.map_some, Option.getD_some]; exact chainAlive_norm (hs.node h) he
+
+theorem edgeAlive_norm {s : Store} (hs : Settled s) (he : s.epoch ≤ pendingEpoch) (id : Nat) :
+    edgeAlive s.norm id = edgeAlive s id := by
+  unfold edgeAlive
+  have hg : aget s.norm.edges id = (aget s.edges id).map (fun cr => (normChain cr.1, cr.2)) :=
+    aget_amap (fun (cr : List Ver × EdgeRec) => (normChain cr.1, cr.2)) s.edges id
+  rw [hg]
+  cases h : aget s.edges id with
+  | none => rfl
+  | some cr =>
+    obtain ⟨c, r⟩ := cr
+    simp only [Option.map_some, Option.getD_some]; exact chainAlive_norm (hs.edge h) he
+
+/-- what `set_node_property` writes once the aliveness test has passed -/
+def Store.setNodePropRaw (s : Store) (id key : Nat) (v : String) : Store :=
+  let old := aget (s.nodePropsOf id) key
+  let pidx := match aget s.pidx key with
+    | none => s.pidx
+    | some vals =>
+      let vals1 := match old with | some o => pidxRemove vals o id | none => vals
+      aset s.pidx key (pidxAdd vals1 v id)
+  { s with nprops := aset s.nprops id (aset (s.nodePropsOf id) key v), pidx := pidx }
+
+def Store.setEdgePropRaw (s : Store) (id key : Nat) (v : String) : Store :=
+  { s with eprops := aset s.eprops id (aset ((aget s.eprops id).getD []) key v) }
+
+theorem setNodeProp_eq (s : Store) (id k : Nat) (v : String) :
+    s.setNodeProp id k v = if nodeAlive s id then s.setNodePropRaw id k v else s := by
+  unfold Store.setNodeProp nodeAlive
+  cases ((aget s.nodes id).map chainAlive).getD false <;> rfl
+
+theorem setEdgeProp_eq (s : Store) (id k : Nat) (v : String) :
+    s.setEdgeProp id k v = if edgeAlive s id then s.setEdgePropRaw id k v else s := by
+  unfold Store.setEdgeProp edgeAlive
+  cases ((aget s.edges id).map (fun e => chainAlive e.1)).getD false <;> rfl
+
+theorem norm_setNodeProp (s : Store) (hs : Settled s) (he : s.epoch ≤ pendingEpoch) (id k : Nat) (v : String) :
+    (s.setNodeProp id k v).norm = s.norm.setNodeProp id k v := by
+  rw [setNodeProp_eq, setNodeProp_eq, nodeAlive_norm hs he]
+  cases nodeAlive s id <;> rfl
+
+theorem norm_setEdgeProp (s : Store) (hs : Settled s) (he : s.epoch ≤ pendingEpoch) (id k : Nat) (v : String) :
+    (s.setEdgeProp id k v).norm = s.norm.setEdgeProp id k v := by
+  rw [setEdgeProp_eq, setEdgeProp_eq, edgeAlive_norm hs he]
+  cases edgeAlive s id <;> rfl
+
+theorem setNodeProp_same (s : Store) (id k : Nat) (v : String) :
+    (s.setNodeProp id k v).epoch = s.epoch ∧ (s.setNodeProp id k v).nodes = s.nodes ∧
+    (s.setNodeProp id k v).edges = s.edges := by
+  rw [setNodeProp_eq]; split <;> exact ⟨rfl, rfl, rfl⟩
+
+theorem setEdgeProp_same (s : Store) (id k : Nat) (v : String) :
+    (s.setEdgeProp id k v).epoch = s.epoch ∧ (s.setEdgeProp id k v).nodes = s.nodes ∧
+    (s.setEdgeProp id k v).edges = s.edges := by
+  rw [setEdgeProp_eq]; split <;> exact ⟨rfl, rfl, rfl⟩
+
+theorem deleteNodeAt_epoch (s : Store) (id e : Nat) : (s.deleteNodeAt id e).1.epoch = s.epoch := by
+  unfold Store.deleteNodeAt
+  split
+  · rfl
+  · split <;> rfl
+
+theorem deleteEdgeAt_epoch (s : Store) (id e : Nat) : (s.deleteEdgeAt id e).1.epoch = s.epoch := by
+  unfold Store.deleteEdgeAt
+  split
+  · rfl
+  · split <;> rfl
 
 theorem norm_deleteNodeAt (s : Store) (hs : Settled s) (id : Nat) :
     (s.deleteNodeAt id s.epoch).1.norm = (s.norm.deleteNodeAt id 0).1 ∧
@@ -507,23 +600,39 @@ theorem settled_applyRec {s : Store} (h : Settled s) (r : WRec) : Settled (apply
   | deleteNode id => exact settled_deleteNodeAt h id
   | createEdge id a b t => exact settled_createEdgeWithId h id a b t
   | deleteEdge id => exact settled_deleteEdgeAt h id
-  | setNodeProp id k v => exact settled_of_same rfl rfl rfl h
-  | setEdgeProp id k v => exact settled_of_same rfl rfl rfl h
+  | setNodeProp id k v => have := setNodeProp_same s id k v; exact settled_of_same this.1 this.2.1 this.2.2 h
+  | setEdgeProp id k v => have := setEdgeProp_same s id k v; exact settled_of_same this.1 this.2.1 this.2.2 h
   | addLabel id l => have := addLabel_same s id l; exact settled_of_same this.1 this.2.1 this.2.2 h
   | removeLabel id l => have := removeLabel_same s id l; exact settled_of_same this.1 this.2.1 this.2.2 h
   | txCommit => exact h
   | txAbort => exact h
   | checkpoint => exact h
 
-/-- replaying a record commutes with forgetting the stamps -/
-theorem norm_applyRec {s : Store} (h : Settled s) (r : WRec) : (applyRec s r).norm = applyRec s.norm r := by
+theorem applyRec_epoch (s : Store) (r : WRec) : (applyRec s r).epoch = s.epoch := by
+  cases r with
+  | createNode id ls => rfl
+  | deleteNode id => exact deleteNodeAt_epoch s id _
+  | createEdge id a b t => rfl
+  | deleteEdge id => exact deleteEdgeAt_epoch s id _
+  | setNodeProp id k v => exact (setNodeProp_same s id k v).1
+  | setEdgeProp id k v => exact (setEdgeProp_same s id k v).1
+  | addLabel id l => exact (addLabel_same s id l).1
+  | removeLabel id l => exact (removeLabel_same s id l).1
+  | txCommit => rfl
+  | txAbort => rfl
+  | checkpoint => rfl
+
+/-- replaying a record commutes with forgetting the stamps (the store's epoch has not passed
+`PENDING`: needed for the aliveness test of the property setters) -/
+theorem norm_applyRec {s : Store} (h : Settled s) (he : s.epoch ≤ pendingEpoch) (r : WRec) :
+    (applyRec s r).norm = applyRec s.norm r := by
   cases r with
   | createNode id ls => exact norm_createNodeWithId s id ls
   | deleteNode id => exact (norm_deleteNodeAt s h id).1
   | createEdge id a b t => exact norm_createEdgeWithId s id a b t
   | deleteEdge id => exact (norm_deleteEdgeAt s h id).1
-  | setNodeProp id k v => rfl
-  | setEdgeProp id k v => rfl
+  | setNodeProp id k v => exact norm_setNodeProp s h he id k v
+  | setEdgeProp id k v => exact norm_setEdgeProp s h he id k v
   | addLabel id l => exact (norm_addLabel s h id l).1
   | removeLabel id l => exact (norm_removeLabel s h id l).1
   | txCommit => rfl
@@ -535,13 +644,18 @@ theorem settled_foldl_applyRec {s : Store} (h : Settled s) (rs : List WRec) : Se
   | nil => exact h
   | cons r rs ih => exact ih (settled_applyRec h r)
 
-theorem norm_foldl_applyRec {s : Store} (h : Settled s) (rs : List WRec) :
+theorem norm_foldl_applyRec {s : Store} (h : Settled s) (he : s.epoch ≤ pendingEpoch) (rs : List WRec) :
     (rs.foldl applyRec s).norm = rs.foldl applyRec s.norm := by
   induction rs generalizing s with
   | nil => rfl
   | cons r rs ih =>
     simp only [List.foldl_cons]
-    rw [ih (settled_applyRec h r), norm_applyRec h r]
+    rw [ih (settled_applyRec h r) (by rw [applyRec_epoch]; exact he), norm_applyRec h he r]
+
+theorem foldl_applyRec_epoch (s : Store) (rs : List WRec) : (rs.foldl applyRec s).epoch = s.epoch := by
+  induction rs generalizing s with
+  | nil => rfl
+  | cons r rs ih => simp only [List.foldl_cons]; rw [ih, applyRec_epoch]
 
 end Grafeo.Persist
 
@@ -823,11 +937,11 @@ theorem good_deleteNodeAt {s : Store} (h : Good s) (id e : Nat) : Good (s.delete
     · exact List.nodup_nil
   · intro x; rw [h7]; exact h.pr.2 x
 
-theorem good_setNodeProp {s : Store} (h : Good s) (id k : Nat) (v : String) : Good (s.setNodeProp id k v) := by
+theorem good_setNodePropRaw {s : Store} (h : Good s) (id k : Nat) (v : String) : Good (s.setNodePropRaw id k v) := by
   refine ⟨nodeKeysOk_of_same h.nk rfl rfl, labelsOk_of_same h.lb rfl, ⟨?_, h.pr.2⟩,
     edgesOk_of_same h.ed rfl rfl rfl rfl rfl rfl, edgeSingle_of_same h.sg rfl⟩
   intro x
-  unfold Store.nodePropsOf Store.setNodeProp
+  unfold Store.nodePropsOf Store.setNodePropRaw
   simp only [getD_aget_aset]
   split
   · rw [akeys_aset]
@@ -840,11 +954,17 @@ theorem good_setNodeProp {s : Store} (h : Good s) (id k : Nat) (v : String) : Go
       subst hb; intro e; subst e; exact hk ha
   · exact h.pr.1 x
 
-theorem good_setEdgeProp {s : Store} (h : Good s) (id k : Nat) (v : String) : Good (s.setEdgeProp id k v) := by
+theorem good_setNodeProp {s : Store} (h : Good s) (id k : Nat) (v : String) : Good (s.setNodeProp id k v) := by
+  rw [setNodeProp_eq]
+  split
+  · exact good_setNodePropRaw h id k v
+  · exact h
+
+theorem good_setEdgePropRaw {s : Store} (h : Good s) (id k : Nat) (v : String) : Good (s.setEdgePropRaw id k v) := by
   refine ⟨nodeKeysOk_of_same h.nk rfl rfl, labelsOk_of_same h.lb rfl, ⟨h.pr.1, ?_⟩,
     edgesOk_of_same h.ed rfl rfl rfl rfl rfl rfl, edgeSingle_of_same h.sg rfl⟩
   intro x
-  unfold Store.setEdgeProp
+  unfold Store.setEdgePropRaw
   simp only [getD_aget_aset]
   split
   · rw [akeys_aset]
@@ -856,6 +976,12 @@ theorem good_setEdgeProp {s : Store} (h : Good s) (id k : Nat) (v : String) : Go
       simp only [List.mem_singleton] at hb
       subst hb; intro e; subst e; exact hk ha
   · exact h.pr.2 x
+
+theorem good_setEdgeProp {s : Store} (h : Good s) (id k : Nat) (v : String) : Good (s.setEdgeProp id k v) := by
+  rw [setEdgeProp_eq]
+  split
+  · exact good_setEdgePropRaw h id k v
+  · exact h
 
 theorem addLabel_fields (s : Store) (id l : Nat) :
     let s' := (s.addLabel id l).1
@@ -1101,3 +1227,621 @@ theorem good_deleteEdgeAt {s : Store} (h : Good s) (hs : Settled s) (id : Nat) :
       · exact h.sg kv e
 
 end Grafeo.Lpg
+
+namespace Grafeo.Persist
+open Grafeo.Lpg Grafeo.Wal
+
+/-! ### one logged call = at most one replayed record -/
+
+/-- ids in a create record are not below the store's counters (always so for the record a
+create call has just logged) -/
+def RecFresh (s : Store) : WRec → Prop
+  | .createNode id _ => s.nextNode ≤ id
+  | .createEdge id _ _ _ => s.nextEdge ≤ id
+  | _ => True
+
+theorem good_applyRec {s : Store} (h : Good s) (hs : Settled s) (r : WRec) (hr : RecFresh s r) :
+    Good (applyRec s r) := by
+  cases r with
+  | createNode id ls => exact good_createNodeWithId h id ls hr
+  | deleteNode id => exact good_deleteNodeAt h id _
+  | createEdge id a b t => exact good_createEdgeWithId h id a b t hr
+  | deleteEdge id => exact good_deleteEdgeAt h hs id
+  | setNodeProp id k v => exact good_setNodeProp h id k v
+  | setEdgeProp id k v => exact good_setEdgeProp h id k v
+  | addLabel id l => exact good_addLabel h id l
+  | removeLabel id l => exact good_removeLabel h id l
+  | txCommit => exact h
+  | txAbort => exact h
+  | checkpoint => exact h
+
+/-- the calls that change data (everything but checkpoint and close→reopen) -/
+def LOp.isData : LOp → Bool
+  | .checkpoint => false
+  | .closeReopen => false
+  | _ => true
+
+/-- the record a logged call appends, as a function of the live store (`none`: the call was
+refused and nothing is logged) -/
+def recOf (s : Store) : LOp → Option WRec
+  | .createNode ls => some (.createNode s.nextNode ls)
+  | .deleteNode id => if (s.deleteNodeAt id s.epoch).2 then some (.deleteNode id) else none
+  | .createEdge a b t => some (.createEdge s.nextEdge a b t)
+  | .deleteEdge id => if (s.deleteEdgeAt id s.epoch).2 then some (.deleteEdge id) else none
+  | .setNodeProp id k v => some (.setNodeProp id k v)
+  | .setEdgeProp id k v => some (.setEdgeProp id k v)
+  | .addLabel id l => if (s.addLabel id l).2 then some (.addLabel id l) else none
+  | .removeLabel id l => if (s.removeLabel id l).2 then some (.removeLabel id l) else none
+  | .checkpoint => none
+  | .closeReopen => none
+
+/-- **normal form of a logged call**: the live store moves by replaying the record that is
+appended to the log — the call and its replay are the same function. -/
+theorem api_data (d : Db) (op : LOp) (h : op.isData = true) :
+    d.api op = { d with live := (recOf d.live op).toList.foldl applyRec d.live,
+                        log := d.log ++ (recOf d.live op).toList } := by
+  cases op with
+  | createNode ls =>
+    simp only [Db.api, recOf, Option.toList_some, List.foldl_cons, List.foldl_nil, applyRec_createNode]
+    rfl
+  | createEdge a b t =>
+    simp only [Db.api, recOf, Option.toList_some, List.foldl_cons, List.foldl_nil, applyRec_createEdge]
+    rfl
+  | setNodeProp id k v => rfl
+  | setEdgeProp id k v => rfl
+  | deleteNode id =>
+    simp only [Db.api, recOf]
+    cases hok : (d.live.deleteNodeAt id d.live.epoch).2 with
+    | true => rfl
+    | false => simp [deleteNodeAt_false _ _ _ hok]
+  | deleteEdge id =>
+    simp only [Db.api, recOf]
+    cases hok : (d.live.deleteEdgeAt id d.live.epoch).2 with
+    | true => rfl
+    | false => simp [deleteEdgeAt_false _ _ _ hok]
+  | addLabel id l =>
+    simp only [Db.api, recOf]
+    cases hok : (d.live.addLabel id l).2 with
+    | true => rfl
+    | false => simp [addLabel_false _ _ _ hok]
+  | removeLabel id l =>
+    simp only [Db.api, recOf]
+    cases hok : (d.live.removeLabel id l).2 with
+    | true => rfl
+    | false => simp [removeLabel_false _ _ _ hok]
+  | checkpoint => cases h
+  | closeReopen => cases h
+
+theorem recOf_fresh (s : Store) (op : LOp) (r : WRec) (h : recOf s op = some r) : RecFresh s r := by
+  cases op <;> simp only [recOf] at h
+  case createNode ls => cases h; exact Nat.le_refl _
+  case createEdge a b t => cases h; exact Nat.le_refl _
+  case setNodeProp => cases h; trivial
+  case setEdgeProp => cases h; trivial
+  case deleteNode id => split at h <;> cases h; trivial
+  case deleteEdge id => split at h <;> cases h; trivial
+  case addLabel id l => split at h <;> cases h; trivial
+  case removeLabel id l => split at h <;> cases h; trivial
+  all_goals cases h
+
+theorem recOf_kind (s : Store) (op : LOp) (r : WRec) (h : recOf s op = some r) : r.kind = .data := by
+  cases op <;> simp only [recOf] at h
+  case createNode ls => cases h; rfl
+  case createEdge a b t => cases h; rfl
+  case setNodeProp => cases h; rfl
+  case setEdgeProp => cases h; rfl
+  case deleteNode id => split at h <;> cases h; rfl
+  case deleteEdge id => split at h <;> cases h; rfl
+  case addLabel id l => split at h <;> cases h; rfl
+  case removeLabel id l => split at h <;> cases h; rfl
+  all_goals cases h
+
+/-- the record logged does not depend on the stamps -/
+theorem recOf_norm {s : Store} (hs : Settled s) (op : LOp) : recOf s.norm op = recOf s op := by
+  cases op with
+  | createNode ls => rfl
+  | createEdge a b t => rfl
+  | setNodeProp id k v => rfl
+  | setEdgeProp id k v => rfl
+  | deleteNode id => simp only [recOf]; rw [(norm_deleteNodeAt s hs id).2]; rfl
+  | deleteEdge id => simp only [recOf]; rw [(norm_deleteEdgeAt s hs id).2]; rfl
+  | addLabel id l => simp only [recOf, (norm_addLabel s hs id l).2]
+  | removeLabel id l => simp only [recOf, (norm_removeLabel s hs id l).2]
+  | checkpoint => rfl
+  | closeReopen => rfl
+
+end Grafeo.Persist
+
+namespace Grafeo.Persist
+open Grafeo.Lpg Grafeo.Wal
+
+/-! ### the invariant of every database reached through the logged API -/
+
+/-- close→reopen of a database whose log is in step with its store gives the same store -/
+theorem reopen_live_of_inSync (d : Db) (h : InSync d) (ho : d.isOpen = true) : d.close.reopen.live = d.live := by
+  unfold Db.reopen
+  simp only [replay_eq]
+  unfold Db.close
+  simp only [ho, if_true]
+  have h2 := inSync_commit_checkpoint d h
+  unfold InSync at h2
+  have hp := rstate_commit_ckpt_pending d.log
+  simp only [hp, List.append_nil] at h2
+  exact h2
+
+structure Reach (d : Db) : Prop where
+  sync : InSync d
+  op : d.isOpen = true
+  good : Good d.live
+  settled : Settled d.live
+  normal : d.live.norm = d.live
+
+theorem reach_init : Reach {} := ⟨inSync_init, rfl, good_empty, settled_empty, rfl⟩
+
+theorem api_live_checkpoint (d : Db) : (d.api .checkpoint).live = d.live := rfl
+
+theorem reach_api (d : Db) (op : LOp) (h : Reach d) : Reach (d.api op) := by
+  suffices hrest : Good (d.api op).live ∧ Settled (d.api op).live ∧ (d.api op).live.norm = (d.api op).live from
+    ⟨inSync_api d op h.sync h.op, api_isOpen d op h.op, hrest.1, hrest.2.1, hrest.2.2⟩
+  by_cases hd : op.isData = true
+  · rw [api_data d op hd]
+    cases hr : recOf d.live op with
+    | none => exact ⟨h.good, h.settled, h.normal⟩
+    | some r =>
+      simp only [Option.toList_some, List.foldl_cons, List.foldl_nil]
+      refine ⟨good_applyRec h.good h.settled r (recOf_fresh _ _ _ hr), settled_applyRec h.settled r, ?_⟩
+      have he : d.live.epoch ≤ pendingEpoch := by rw [← h.normal]; exact Nat.zero_le _
+      rw [norm_applyRec h.settled he r, h.normal]
+  · cases op with
+    | checkpoint => exact ⟨h.good, h.settled, h.normal⟩
+    | closeReopen =>
+      have : (d.api .closeReopen).live = d.live := reopen_live_of_inSync d h.sync h.op
+      rw [this]; exact ⟨h.good, h.settled, h.normal⟩
+    | _ => exact absurd rfl hd
+
+theorem reach_foldl (ops : List LOp) (d : Db) (h : Reach d) : Reach (ops.foldl Db.api d) := by
+  induction ops generalizing d with
+  | nil => exact h
+  | cons op ops ih => exact ih _ (reach_api d op h)
+
+theorem reach_runApi (ops : List LOp) : Reach (runApi ops) := reach_foldl ops {} reach_init
+
+theorem runApi_snoc (ops : List LOp) (op : LOp) : runApi (ops ++ [op]) = (runApi ops).api op := by
+  simp [runApi, List.foldl_append]
+
+end Grafeo.Persist
+
+namespace Grafeo.Persist
+open Grafeo.Lpg Grafeo.Wal
+
+/-! ### what `copyStore` builds -/
+
+theorem sortNat_sorted (l : List Nat) (h : l.Pairwise (· < ·)) : sortNat l = l := by
+  induction l with
+  | nil => rfl
+  | cons x xs ih =>
+    have hx := List.pairwise_cons.mp h
+    unfold sortNat at ih ⊢
+    simp only [List.foldr_cons, ih hx.2]
+    cases xs with
+    | nil => rfl
+    | cons y ys =>
+      have : ¬ y < x := by have := hx.1 y List.mem_cons_self; omega
+      simp [insertNat, this]
+
+theorem nodeIds_sorted {s : Store} (h : NodeKeysOk s) : s.nodeIds.Pairwise (· < ·) := by
+  unfold Store.nodeIds
+  exact List.Pairwise.sublist (List.Sublist.map _ List.filter_sublist) h.1
+
+theorem edgeView_keys_sorted {s : Store} (h : EdgesOk s) : (akeys (edgeView s)).Pairwise (· < ·) := by
+  have : akeys (edgeView s) = (s.edges.filter (fun kv => chainVisibleAt kv.2.1 s.epoch)).map (·.1) := by
+    simp [akeys, edgeView, List.map_map, Function.comp_def]
+  rw [this]
+  exact List.Pairwise.sublist (List.Sublist.map _ List.filter_sublist) h.1
+
+theorem nodeIds_createNodeWithId (s : Store) (id : Nat) (ls : List Nat) (hf : id ∉ akeys s.nodes) :
+    (s.createNodeWithId id ls).nodeIds = s.nodeIds ++ [id] := by
+  unfold Store.nodeIds Store.createNodeWithId
+  simp only [aset_fresh _ _ _ hf, List.filter_append, List.map_append]
+  simp [chainVisibleAt_fresh]
+
+def copyNodeStep (s acc : Store) (id : Nat) : Store :=
+  (s.nodePropsOf id).foldl (fun a2 kv => a2.setNodeProp id kv.1 kv.2) (acc.createNodeWithId id (s.nodeLabelsOf id))
+
+def copyEdgeStep (s acc : Store) (id : Nat) : Store :=
+  match aget s.edges id with
+  | some (_, r) =>
+    ((aget s.eprops id).getD []).foldl (fun a2 kv => a2.setEdgeProp id kv.1 kv.2) (acc.createEdgeWithId id r.src r.dst r.ty)
+  | none => acc
+
+theorem copyStore_eq (s : Store) :
+    copyStore s = (sortNat s.edgeIds).foldl (copyEdgeStep s) ((sortNat s.nodeIds).foldl (copyNodeStep s) {}) := rfl
+
+theorem nodePropsOf_setNodePropRaw (a : Store) (id k : Nat) (v : String) (x : Nat) :
+    (a.setNodePropRaw id k v).nodePropsOf x = if x = id then aset (a.nodePropsOf id) k v else a.nodePropsOf x := by
+  unfold Store.nodePropsOf Store.setNodePropRaw
+  simp only [getD_aget_aset]
+  rfl
+
+/-- the copy sets properties on the node it has just created: the aliveness test passes -/
+theorem foldl_setNodeProp (a : Store) (id : Nat) (ps : AList String) (ha : nodeAlive a id = true) :
+    let t := ps.foldl (fun a2 kv => a2.setNodeProp id kv.1 kv.2) a
+    (∀ x, t.nodePropsOf x = if x = id then ps.foldl (fun p kv => aset p kv.1 kv.2) (a.nodePropsOf id) else a.nodePropsOf x) ∧
+    t.nodes = a.nodes ∧ t.epoch = a.epoch ∧ t.nextNode = a.nextNode ∧ t.nodeLabels = a.nodeLabels ∧
+    t.edges = a.edges ∧ t.eprops = a.eprops ∧ t.nextEdge = a.nextEdge ∧ (Good a → Good t) := by
+  induction ps generalizing a with
+  | nil => exact ⟨fun x => by by_cases hx : x = id <;> simp [hx], rfl, rfl, rfl, rfl, rfl, rfl, rfl, fun h => h⟩
+  | cons kv rest ih =>
+    have hstep : a.setNodeProp id kv.1 kv.2 = a.setNodePropRaw id kv.1 kv.2 := by
+      rw [setNodeProp_eq, ha]; rfl
+    have ha' : nodeAlive (a.setNodePropRaw id kv.1 kv.2) id = true := ha
+    obtain ⟨h1, h2, h3, h4, h5, h6, h7, h8, h9⟩ := ih (a.setNodePropRaw id kv.1 kv.2) ha'
+    simp only [List.foldl_cons, hstep]
+    refine ⟨fun x => ?_, h2, h3, h4, h5, h6, h7, h8, fun hg => h9 (good_setNodePropRaw hg _ _ _)⟩
+    rw [h1 x]
+    by_cases hx : x = id
+    · simp [hx, nodePropsOf_setNodePropRaw]
+    · simp [hx, nodePropsOf_setNodePropRaw]
+
+theorem eprops_setEdgePropRaw (a : Store) (id k : Nat) (v : String) (x : Nat) :
+    (aget (a.setEdgePropRaw id k v).eprops x).getD [] =
+      if x = id then aset ((aget a.eprops id).getD []) k v else (aget a.eprops x).getD [] := by
+  unfold Store.setEdgePropRaw
+  simp only [getD_aget_aset]
+
+theorem foldl_setEdgeProp (a : Store) (id : Nat) (ps : AList String) (ha : edgeAlive a id = true) :
+    let t := ps.foldl (fun a2 kv => a2.setEdgeProp id kv.1 kv.2) a
+    (∀ x, (aget t.eprops x).getD [] =
+      if x = id then ps.foldl (fun p kv => aset p kv.1 kv.2) ((aget a.eprops id).getD []) else (aget a.eprops x).getD []) ∧
+    t.nodes = a.nodes ∧ t.epoch = a.epoch ∧ t.nodeLabels = a.nodeLabels ∧ t.nprops = a.nprops ∧
+    t.edges = a.edges ∧ t.nextEdge = a.nextEdge ∧ (Good a → Good t) := by
+  induction ps generalizing a with
+  | nil => exact ⟨fun x => by by_cases hx : x = id <;> simp [hx], rfl, rfl, rfl, rfl, rfl, rfl, fun h => h⟩
+  | cons kv rest ih =>
+    have hstep : a.setEdgeProp id kv.1 kv.2 = a.setEdgePropRaw id kv.1 kv.2 := by
+      rw [setEdgeProp_eq, ha]; rfl
+    have ha' : edgeAlive (a.setEdgePropRaw id kv.1 kv.2) id = true := ha
+    obtain ⟨h1, h2, h3, h4, h5, h6, h7, h8⟩ := ih (a.setEdgePropRaw id kv.1 kv.2) ha'
+    simp only [List.foldl_cons, hstep]
+    refine ⟨fun x => ?_, h2, h3, h4, h5, h6, h7, fun hg => h8 (good_setEdgePropRaw hg _ _ _)⟩
+    rw [h1 x]
+    by_cases hx : x = id
+    · simp [hx, eprops_setEdgePropRaw]
+    · simp [hx, eprops_setEdgePropRaw]
+
+theorem nodeAlive_createNodeWithId (acc : Store) (id : Nat) (ls : List Nat) (he : acc.epoch ≤ pendingEpoch) :
+    nodeAlive (acc.createNodeWithId id ls) id = true := by
+  unfold nodeAlive Store.createNodeWithId
+  simp [aget_aset, chainAlive, chainVisibleAt, Ver.visibleAt, he]
+
+theorem edgeAlive_createEdgeWithId (acc : Store) (id a b t : Nat) (he : acc.epoch ≤ pendingEpoch) :
+    edgeAlive (acc.createEdgeWithId id a b t) id = true := by
+  unfold edgeAlive Store.createEdgeWithId
+  simp [aget_aset, chainAlive, chainVisibleAt, Ver.visibleAt, he]
+
+end Grafeo.Persist
+
+namespace Grafeo.Persist
+open Grafeo.Lpg Grafeo.Wal
+
+/-- state of the copy's node loop: `pre` done, `post` to do -/
+structure P1 (s acc : Store) (pre post : List Nat) : Prop where
+  good : Good acc
+  ids : acc.nodeIds = pre
+  nxt : ∀ b ∈ post, acc.nextNode ≤ b
+  lab : ∀ x ∈ pre, acc.nodeLabelsOf x = s.nodeLabelsOf x
+  prp : ∀ x ∈ pre, acc.nodePropsOf x = s.nodePropsOf x
+  prp0 : ∀ x, x ∉ pre → acc.nodePropsOf x = []
+  noE : acc.edges = [] ∧ acc.eprops = [] ∧ acc.nextEdge = 0
+  ep : acc.epoch ≤ pendingEpoch
+
+theorem p1_step {s acc : Store} {pre post : List Nat} {id : Nat} (hl : LabelsOk s) (hp : PropsOk s)
+    (hsort : (pre ++ id :: post).Pairwise (· < ·)) (h : P1 s acc pre (id :: post)) :
+    P1 s (copyNodeStep s acc id) (pre ++ [id]) post := by
+  have hnd := nodup_of_pairwise_lt hsort
+  have hidpre : id ∉ pre := by
+    intro hm
+    exact (List.nodup_append.mp hnd).2.2 _ hm _ List.mem_cons_self rfl
+  have hfresh : acc.nextNode ≤ id := h.nxt id List.mem_cons_self
+  have hfk : id ∉ akeys acc.nodes := h.good.nk.fresh hfresh
+  let a := acc.createNodeWithId id (s.nodeLabelsOf id)
+  have ha_good : Good a := good_createNodeWithId h.good id _ hfresh
+  obtain ⟨f1, f2, f3, f4, f5, f6, f7, f8, f9⟩ := foldl_setNodeProp a id (s.nodePropsOf id)
+    (nodeAlive_createNodeWithId acc id _ h.ep)
+  have ha_lab : ∀ x, a.nodeLabelsOf x = if x = id then s.nodeLabelsOf id else acc.nodeLabelsOf x := by
+    intro x
+    show (aget (aset acc.nodeLabels id _) x).getD [] = _
+    rw [getD_aget_aset]
+    have := foldl_sinsert_rebuild (s.nodeLabelsOf id) [] (by simpa using hl id)
+    simp only [List.nil_append] at this
+    rw [this]; rfl
+  have ha_next : a.nextNode = id + 1 := by
+    show (if id ≥ acc.nextNode then id + 1 else acc.nextNode) = id + 1
+    simp [hfresh]
+  refine ⟨f9 ha_good, ?_, ?_, ?_, ?_, ?_, ?_, ?_⟩
+  · show (copyNodeStep s acc id).nodeIds = pre ++ [id]
+    unfold Store.nodeIds copyNodeStep
+    rw [f2, f3]
+    have := nodeIds_createNodeWithId acc id (s.nodeLabelsOf id) hfk
+    unfold Store.nodeIds at this
+    rw [this]
+    have := h.ids
+    unfold Store.nodeIds at this
+    rw [this]
+  · intro b hb
+    show (copyNodeStep s acc id).nextNode ≤ b
+    unfold copyNodeStep
+    rw [f4, ha_next]
+    have h1 := (List.pairwise_append.mp hsort).2.1
+    have := (List.pairwise_cons.mp h1).1 b hb
+    omega
+  · intro x hx
+    show (aget (copyNodeStep s acc id).nodeLabels x).getD [] = _
+    unfold copyNodeStep
+    rw [f5]
+    show a.nodeLabelsOf x = _
+    rw [ha_lab x]
+    rcases List.mem_append.mp hx with hx | hx
+    · have : x ≠ id := fun e => hidpre (e ▸ hx)
+      simp only [this, if_false]; exact h.lab x hx
+    · simp only [List.mem_singleton] at hx
+      simp [hx]
+  · intro x hx
+    show (copyNodeStep s acc id).nodePropsOf x = _
+    unfold copyNodeStep
+    rw [f1 x]
+    rcases List.mem_append.mp hx with hx | hx
+    · have : x ≠ id := fun e => hidpre (e ▸ hx)
+      simp only [this, if_false]; exact h.prp x hx
+    · simp only [List.mem_singleton] at hx
+      subst hx
+      simp only [if_true]
+      have h0 : a.nodePropsOf x = [] := h.prp0 x hidpre
+      rw [h0]
+      have := foldl_aset_rebuild (s.nodePropsOf x) [] (by simpa using hp.1 x)
+      simpa using this
+  · intro x hx
+    show (copyNodeStep s acc id).nodePropsOf x = _
+    unfold copyNodeStep
+    rw [f1 x]
+    have h1 : x ≠ id := fun e => hx (by simp [e])
+    have h2 : x ∉ pre := fun hm => hx (by simp [hm])
+    simp only [h1, if_false]
+    exact h.prp0 x h2
+  · show (copyNodeStep s acc id).edges = [] ∧ (copyNodeStep s acc id).eprops = [] ∧ (copyNodeStep s acc id).nextEdge = 0
+    unfold copyNodeStep
+    rw [f6, f7, f8]
+    exact h.noE
+  · show (copyNodeStep s acc id).epoch ≤ pendingEpoch
+    unfold copyNodeStep
+    rw [f3]; exact h.ep
+
+theorem p1_fold {s : Store} (hl : LabelsOk s) (hp : PropsOk s) (post : List Nat) :
+    ∀ (pre : List Nat) (acc : Store), (pre ++ post).Pairwise (· < ·) → P1 s acc pre post →
+      P1 s (post.foldl (copyNodeStep s) acc) (pre ++ post) [] := by
+  induction post with
+  | nil => intro pre acc _ h; simpa using h
+  | cons id post ih =>
+    intro pre acc hsort h
+    simp only [List.foldl_cons]
+    have := ih (pre ++ [id]) (copyNodeStep s acc id) (by simpa using hsort) (p1_step hl hp hsort h)
+    simpa using this
+
+theorem p1_init (s : Store) (post : List Nat) : P1 s {} [] post :=
+  ⟨good_empty, rfl, fun b _ => Nat.zero_le b, fun _ hx => (List.not_mem_nil hx).elim,
+    fun _ hx => (List.not_mem_nil hx).elim, fun _ _ => rfl, ⟨rfl, rfl, rfl⟩, Nat.zero_le _⟩
+
+end Grafeo.Persist
+
+namespace Grafeo.Persist
+open Grafeo.Lpg Grafeo.Wal
+
+/-- state of the copy's edge loop -/
+structure P2 (s s1 acc : Store) (pre post : List (Nat × EdgeRec)) : Prop where
+  good : Good acc
+  view : edgeView acc = pre
+  nxt : ∀ p ∈ post, acc.nextEdge ≤ p.1
+  epr : ∀ x ∈ akeys pre, (aget acc.eprops x).getD [] = (aget s.eprops x).getD []
+  epr0 : ∀ x, x ∉ akeys pre → (aget acc.eprops x).getD [] = []
+  nodes : acc.nodes = s1.nodes ∧ acc.epoch = s1.epoch ∧ acc.nodeLabels = s1.nodeLabels ∧ acc.nprops = s1.nprops
+  ep : acc.epoch ≤ pendingEpoch
+
+theorem p2_step {s s1 acc : Store} {pre post : List (Nat × EdgeRec)} {p : Nat × EdgeRec} (hp : PropsOk s)
+    (hsort : (akeys (pre ++ p :: post)).Pairwise (· < ·)) (hrec : ∃ c, aget s.edges p.1 = some (c, p.2))
+    (h : P2 s s1 acc pre (p :: post)) : P2 s s1 (copyEdgeStep s acc p.1) (pre ++ [p]) post := by
+  obtain ⟨id, r⟩ := p
+  obtain ⟨c, hrec⟩ := hrec
+  simp only at hrec
+  have hnd := nodup_of_pairwise_lt hsort
+  have hidpre : id ∉ akeys pre := by
+    intro hm
+    simp only [akeys_append, akeys_cons] at hnd
+    exact (List.nodup_append.mp hnd).2.2 _ hm _ List.mem_cons_self rfl
+  have hfresh : acc.nextEdge ≤ id := h.nxt (id, r) List.mem_cons_self
+  have hfk : id ∉ akeys acc.edges := h.good.ed.fresh hfresh
+  let a := acc.createEdgeWithId id r.src r.dst r.ty
+  have ha_good : Good a := good_createEdgeWithId h.good id _ _ _ hfresh
+  have hstep : copyEdgeStep s acc id =
+      ((aget s.eprops id).getD []).foldl (fun a2 kv => a2.setEdgeProp id kv.1 kv.2) a := by
+    simp only [copyEdgeStep, hrec]
+    rfl
+  obtain ⟨f1, f2, f3, f4, f5, f6, f7, f8⟩ := foldl_setEdgeProp a id ((aget s.eprops id).getD [])
+    (edgeAlive_createEdgeWithId acc id _ _ _ h.ep)
+  have ha_view : edgeView a = pre ++ [(id, r)] := by
+    have := edgeView_createEdgeWithId (s := acc) id r.src r.dst r.ty hfk
+    rw [this, h.view]
+  have ha_next : a.nextEdge = id + 1 := by
+    show (if id ≥ acc.nextEdge then id + 1 else acc.nextEdge) = id + 1
+    simp [hfresh]
+  rw [hstep]
+  refine ⟨f8 ha_good, ?_, ?_, ?_, ?_, ?_, ?_⟩
+  · unfold edgeView
+    rw [f6, f3]
+    exact ha_view
+  · intro q hq
+    rw [f7, ha_next]
+    simp only [akeys_append, akeys_cons] at hsort
+    have h1 := (List.pairwise_append.mp hsort).2.1
+    have := (List.pairwise_cons.mp h1).1 q.1 (List.mem_map.mpr ⟨q, hq, rfl⟩)
+    omega
+  · intro x hx
+    rw [f1 x]
+    simp only [akeys_append, akeys_cons, akeys_nil] at hx
+    rcases List.mem_append.mp hx with hx | hx
+    · have : x ≠ id := fun e => hidpre (e ▸ hx)
+      simp only [this, if_false]; exact h.epr x hx
+    · simp only [List.mem_singleton] at hx
+      subst hx
+      simp only [if_true]
+      have h0 : (aget a.eprops x).getD [] = [] := h.epr0 x hidpre
+      rw [h0]
+      have := foldl_aset_rebuild ((aget s.eprops x).getD []) [] (by simpa using hp.2 x)
+      simpa using this
+  · intro x hx
+    rw [f1 x]
+    simp only [akeys_append, akeys_cons, akeys_nil] at hx
+    have h1 : x ≠ id := fun e => hx (by simp [e])
+    have h2 : x ∉ akeys pre := fun hm => hx (by simp [hm])
+    simp only [h1, if_false]
+    exact h.epr0 x h2
+  · rw [f2, f3, f4, f5]; exact h.nodes
+  · rw [f3]; exact h.ep
+
+theorem p2_fold {s s1 : Store} (hp : PropsOk s) (post : List (Nat × EdgeRec)) :
+    ∀ (pre : List (Nat × EdgeRec)) (acc : Store), (akeys (pre ++ post)).Pairwise (· < ·) →
+      (∀ p ∈ post, ∃ c, aget s.edges p.1 = some (c, p.2)) → P2 s s1 acc pre post →
+      P2 s s1 ((post.map (·.1)).foldl (copyEdgeStep s) acc) (pre ++ post) [] := by
+  induction post with
+  | nil => intro pre acc _ _ h; simpa using h
+  | cons p post ih =>
+    intro pre acc hsort hrec h
+    simp only [List.map_cons, List.foldl_cons]
+    have := ih (pre ++ [p]) (copyEdgeStep s acc p.1) (by simpa using hsort)
+      (fun q hq => hrec q (List.mem_cons_of_mem _ hq)) (p2_step hp hsort (hrec p List.mem_cons_self) h)
+    simpa using this
+
+/-- two stores that every observer used by the dump tells nothing apart -/
+structure ObsEq (s t : Store) : Prop where
+  nodeIds : s.nodeIds = t.nodeIds
+  labels : ∀ id ∈ s.nodeIds, s.nodeLabelsOf id = t.nodeLabelsOf id
+  nprops : ∀ id ∈ s.nodeIds, s.nodePropsOf id = t.nodePropsOf id
+  edgeIds : s.edgeIds = t.edgeIds
+  erec : ∀ id ∈ s.edgeIds, (aget s.edges id).map (·.2) = (aget t.edges id).map (·.2)
+  eprops : ∀ id ∈ s.edgeIds, (aget s.eprops id).getD [] = (aget t.eprops id).getD []
+  out : ∀ n, s.outEdges n = t.outEdges n
+  inn : ∀ n, s.inEdges n = t.inEdges n
+
+theorem ObsEq.refl (s : Store) : ObsEq s s :=
+  ⟨rfl, fun _ _ => rfl, fun _ _ => rfl, rfl, fun _ _ => rfl, fun _ _ => rfl, fun _ => rfl, fun _ => rfl⟩
+
+theorem ObsEq.symm {s t : Store} (h : ObsEq s t) : ObsEq t s :=
+  ⟨h.nodeIds.symm, fun id hid => (h.labels id (h.nodeIds ▸ hid)).symm, fun id hid => (h.nprops id (h.nodeIds ▸ hid)).symm,
+   h.edgeIds.symm, fun id hid => (h.erec id (h.edgeIds ▸ hid)).symm, fun id hid => (h.eprops id (h.edgeIds ▸ hid)).symm,
+   fun n => (h.out n).symm, fun n => (h.inn n).symm⟩
+
+theorem ObsEq.trans {s t u : Store} (h : ObsEq s t) (g : ObsEq t u) : ObsEq s u :=
+  ⟨h.nodeIds.trans g.nodeIds,
+   fun id hid => (h.labels id hid).trans (g.labels id (h.nodeIds ▸ hid)),
+   fun id hid => (h.nprops id hid).trans (g.nprops id (h.nodeIds ▸ hid)),
+   h.edgeIds.trans g.edgeIds,
+   fun id hid => (h.erec id hid).trans (g.erec id (h.edgeIds ▸ hid)),
+   fun id hid => (h.eprops id hid).trans (g.eprops id (h.edgeIds ▸ hid)),
+   fun n => (h.out n).trans (g.out n), fun n => (h.inn n).trans (g.inn n)⟩
+
+/-- the record of an enumerated edge, read off the view -/
+theorem aget_view {s : Store} (h : EdgesOk s) {id : Nat} (hid : id ∈ s.edgeIds) :
+    (aget s.edges id).map (·.2) = aget (edgeView s) id := by
+  rw [edgeIds_eq_view] at hid
+  obtain ⟨p, hp, hpid⟩ := List.mem_map.mp hid
+  obtain ⟨c, hm⟩ := mem_edgeView hp
+  have h1 := aget_of_mem_nodup _ _ _ (nodup_of_pairwise_lt h.1) hm
+  have h2 := aget_of_mem_nodup (edgeView s) p.1 p.2 (nodup_of_pairwise_lt (edgeView_keys_sorted h)) hp
+  rw [← hpid, h1, h2]; rfl
+
+/-- **what a copy is**: for a store with the invariants of the logged API, `copyStore` gives a
+store that no observer of the dump can tell from the source, and that has those invariants too. -/
+theorem copy_obsEq {s : Store} (h : Good s) : ObsEq (copyStore s) s ∧ Good (copyStore s) := by
+  rw [copyStore_eq]
+  have hN : sortNat s.nodeIds = s.nodeIds := sortNat_sorted _ (nodeIds_sorted h.nk)
+  have hEs : (akeys (edgeView s)).Pairwise (· < ·) := edgeView_keys_sorted h.ed
+  have hE : sortNat s.edgeIds = (edgeView s).map (·.1) := by
+    rw [edgeIds_eq_view]; exact sortNat_sorted _ hEs
+  rw [hN, hE]
+  have q1 := p1_fold h.lb h.pr s.nodeIds [] {} (by simpa using nodeIds_sorted h.nk) (p1_init s _)
+  simp only [List.nil_append] at q1
+  generalize s.nodeIds.foldl (copyNodeStep s) {} = s1 at q1
+  have q2init : P2 s s1 s1 [] (edgeView s) := by
+    refine ⟨q1.good, ?_, ?_, fun x hx => (List.not_mem_nil hx).elim, ?_, ⟨rfl, rfl, rfl, rfl⟩, q1.ep⟩
+    · unfold edgeView; rw [q1.noE.1]; rfl
+    · intro p _; rw [q1.noE.2.2]; exact Nat.zero_le _
+    · intro x _; rw [q1.noE.2.1]; rfl
+  have q2 := p2_fold (s1 := s1) h.pr (edgeView s) [] s1 (by simpa using hEs)
+    (fun p hp => by
+      obtain ⟨c, hm⟩ := mem_edgeView hp
+      exact ⟨c, aget_of_mem_nodup _ _ _ (nodup_of_pairwise_lt h.ed.1) hm⟩) q2init
+  simp only [List.nil_append] at q2
+  generalize ((edgeView s).map (·.1)).foldl (copyEdgeStep s) s1 = t at q2
+  have hids : t.nodeIds = s.nodeIds := by
+    unfold Store.nodeIds
+    rw [q2.nodes.1, q2.nodes.2.1]
+    exact q1.ids
+  have heids : t.edgeIds = s.edgeIds := by rw [edgeIds_eq_view, edgeIds_eq_view, q2.view]
+  refine ⟨⟨hids, ?_, ?_, heids, ?_, ?_, ?_, ?_⟩, q2.good⟩
+  · intro id hid
+    rw [hids] at hid
+    show (aget t.nodeLabels id).getD [] = _
+    rw [q2.nodes.2.2.1]
+    exact q1.lab id hid
+  · intro id hid
+    rw [hids] at hid
+    show (aget t.nprops id).getD [] = _
+    rw [q2.nodes.2.2.2]
+    exact q1.prp id hid
+  · intro id hid
+    rw [aget_view q2.good.ed hid, aget_view h.ed (heids ▸ hid), q2.view]
+  · intro id hid
+    apply q2.epr
+    rw [heids, edgeIds_eq_view] at hid
+    exact hid
+  · intro n; rw [q2.good.ed.2.2.2.1 n, h.ed.2.2.2.1 n, q2.view]
+  · intro n; rw [q2.good.ed.2.2.2.2 n, h.ed.2.2.2.2 n, q2.view]
+
+end Grafeo.Persist
+
+namespace Grafeo.Persist
+open Grafeo.Lpg Grafeo.Wal
+
+theorem filter_amap_keys {ν μ : Type} (l : AList ν) (g : ν → μ) (p : μ → Bool) (q : ν → Bool)
+    (h : ∀ kv ∈ l, p (g kv.2) = q kv.2) :
+    ((amap g l).filter (fun kv => p kv.2)).map (·.1) = (l.filter (fun kv => q kv.2)).map (·.1) := by
+  induction l with
+  | nil => rfl
+  | cons kv rest ih =>
+    have ih' := ih (fun x hx => h x (List.mem_cons_of_mem _ hx))
+    have hk := h kv List.mem_cons_self
+    unfold amap at ih' ⊢
+    simp only [List.map_cons, List.filter_cons, hk]
+    cases q kv.2 with
+    | true => simp only [if_true, List.map_cons, ih']
+    | false => simp only [Bool.false_eq_true, if_false, ih']
+
+/-- forgetting the stamps of a settled store changes nothing an observer of the dump sees -/
+theorem norm_obsEq {s : Store} (hs : Settled s) (hb : s.hasBwd = true) : ObsEq s.norm s := by
+  refine ⟨?_, fun _ _ => rfl, fun _ _ => rfl, ?_, ?_, fun _ _ => rfl, fun _ => rfl, ?_⟩
+  · unfold Store.nodeIds Store.norm
+    exact filter_amap_keys s.nodes normChain (fun c => chainVisibleAt c 0) (fun c => chainVisibleAt c s.epoch)
+      (fun kv hkv => chainVisibleAt_norm_settled (hs.1 kv hkv))
+  · unfold Store.edgeIds Store.norm
+    exact filter_amap_keys s.edges (fun cr => (normChain cr.1, cr.2)) (fun cr => chainVisibleAt cr.1 0)
+      (fun cr => chainVisibleAt cr.1 s.epoch) (fun kv hkv => chainVisibleAt_norm_settled (hs.2 kv hkv))
+  · intro id _
+    have : aget s.norm.edges id = (aget s.edges id).map (fun cr => (normChain cr.1, cr.2)) :=
+      aget_amap (fun (cr : List Ver × EdgeRec) => (normChain cr.1, cr.2)) s.edges id
+    rw [this]
+    cases aget s.edges id <;> rfl
+  · intro n
+    have : s.norm.hasBwd = true := hb
+    simp only [Store.inEdges, this, hb, if_true]
+    rfl
+
+end Grafeo.Persist
